@@ -716,7 +716,7 @@ class DBusObjectHandler :
         prefix = objectPath if objectPath.endswith('/') else objectPath + '/'
 
         for p in sorted(self.exports.keys()):
-            if not p.startswith(prefix):
+            if not p.startswith(prefix) or p == objectPath:
                 continue
             o = self.exports[p]
             i = {}
